@@ -88,14 +88,20 @@ def check(ctx: Ctx) -> str:
     if len(src_) == 1:
         vname = src_[0].targets[0].id  # type: ignore[attr-defined]
 
+    visiting: set[str] = set()
+
     def _exact(e: ast.AST, depth: int = 0) -> bool:
         if isinstance(e, ast.Constant):
             return True
         if isinstance(e, ast.Name):
-            if e.id == vname:
-                return True
+            if e.id == vname or e.id in visiting:
+                return True  # (a local re-wrapped in terms of itself, `text = f"({text})"`: by induction)
             vals = [a.value for a in ast.walk(vc.node) if isinstance(a, ast.Assign) and any(isinstance(t_, ast.Name) and t_.id == e.id for t_ in a.targets)]
-            return bool(vals) and depth < 4 and all(_exact(v_, depth + 1) for v_ in vals)
+            visiting.add(e.id)
+            try:
+                return bool(vals) and depth < 4 and all(_exact(v_, depth + 1) for v_ in vals)
+            finally:
+                visiting.discard(e.id)
         if isinstance(e, ast.Call) and astq.callee(e) in ("str", "repr") and len(e.args) == 1 and not e.keywords:
             return _exact(e.args[0], depth)
         if isinstance(e, ast.JoinedStr):
@@ -107,10 +113,14 @@ def check(ctx: Ctx) -> str:
         return False
 
     writes = [c for c in astq.calls(vc.node) if astq.callee(c) == "self.write" and c.args]
-    ctx.floor("writes in visit_Const", len(writes), 3)
+    ctx.floor("writes in visit_Const", len(writes), 1)
     for c in writes:
         ctx.check(_exact(c.args[0]), f"visit_Const:exact:{ast.unparse(c.args[0])[:30]}", "compiler:CodeGenerator.visit_Const", f"`{ast.unparse(c.args[0])[:50]}` is not an exact spelling of the constant",
                   f"visit_Const writes `{ast.unparse(c.args[0])}`: a constant must reach the generated module through str() / repr() only; a format spec, rounding or arithmetic changes the value the template literal denotes (`{{% set x = 1e-6 %}}` becomes 0.0)", vc.loc(c))
     sre = lm.module_regex("string_re")
     ctx.check(sre.flags & re.S and sre.pattern.count("\\\\.") == 2, "string_re", "lexer:<module>", "string_re shape", "string_re must accept any escaped character (\\\\.) inside both quote styles and span lines (re.S)", "src/jinja2/lexer.py")
+    # the spelling of a signed / non-finite constant (rule shared with C08)
+    from .c08 import r3_safe_repr
+
+    r3_safe_repr(ctx, "R5")
     return __doc__ or ""
